@@ -18,6 +18,12 @@ func init() {
 				r.Rule("R09d", "PRUNE-CLEARS-FLAG: after Prune removed a leaf from the cache index, every continuing path stores its node back with the keep flag cleared")
 				checkPruneClearsFlag(p, r, "R09d")
 			}},
+			{ID: "R09f", Statement: "stored positions are in the forest's own layout", Run: func(p *Program, r *Report) {
+				r.Rule("R09f", "LAYOUT: positions reach the node store, the cache index, the proof-position function and position arithmetic only in the coordinate system (tree layout vs TotalRows layout) the accompanying forest height denotes - a hash is stored at its true position")
+				or := runOrderEngine(p, r, "R09f", []string{"(*MapPollard).Ingest", "(*MapPollard).Verify", "(*MapPollard).VerifyPartialProof", "(*MapPollard).Modify", "(*MapPollard).Undo", "(*MapPollard).Prove", "(*MapPollard).Prune", "(*MapPollard).GetMissingPositions"})
+				reportOrderEvents(p, r, or, orderRules{coord: "R09f"})
+				r.Floor("R09f", "layout-checked call sites in the map forest", r.Stats["coord_sites"], 30)
+			}},
 			{ID: "R09e", Statement: "moves keep the node", Run: func(p *Program, r *Report) {
 				r.Rule("R09e", "MOVE-PAIRING: where a node read from the node store is deleted at its old position and put at a new one, the put happens on every path that deletes")
 				checkMovePairing(p, r, "R09e")
